@@ -196,6 +196,10 @@ class CallMixin:
         r = self.fresh_results(res_types, name.rsplit('.', 1)[-1])
         # a few library facts that are needed everywhere (each is an assumption on the dependency)
         base = name.rsplit('/', 1)[-1]
+        if base in ('errors.WithStack', 'errors.Wrap', 'errors.Wrapf', 'errors.WithMessage', 'errors.New', 'errors.Errorf', 'fmt.Errorf'):
+            if is_term(r):
+                # a freshly built error value is never one of the package-level sentinel errors (io.EOF, ...)
+                self.add_hyp(T.or_(T.lt(r, T.I(900000)), T.lt(T.I(900100), r)))
         if base in ('errors.WithStack', 'errors.Wrap', 'errors.Wrapf', 'errors.WithMessage'):
             e = args[0]
             if is_term(r) and is_term(e):
@@ -486,12 +490,11 @@ class CallMixin:
                         continue
                     raise Unsupported('modifies %s: unknown variable' % loc)
                 if ast[0] == 'sel':
-                    x, tn = self.eval(ast[1], env)
-                    stn = self.ty.elem(tn) if self.ty.kind(tn) == 'pointer' else tn
-                    ft = dict(self.ty.struct_fields(stn))[ast[2]]
-                    v = self.ty.symbolic(ft, 'hv_' + ast[2])
+                    x, stn, path = self.field_path(ast, env)
+                    ft = self.type_at(stn, path)
+                    v = self.ty.symbolic(ft, 'hv_' + path[-1])
                     self.assume_facts(v, ft)
-                    self.store(st, PtrV('field', x, stn, None, (ast[2],)), v)
+                    self.store(st, PtrV('field', x, stn, None, path), v)
                     continue
                 if ast[0] == 'call' and ast[1] in self.specs_ghostfields():
                     x = self.eval_int(ast[2][0], env)
@@ -505,6 +508,22 @@ class CallMixin:
             except Unsupported as e:
                 self.elab_fail('%s' % e)
                 self.havoc_all_heap(st)
+
+    def field_path(self, ast, env):
+        """x.a.b.c  ->  (reference term, struct type name, ('a','b','c')) where x is the innermost pointer"""
+        path = []
+        cur = ast
+        while cur[0] == 'sel':
+            path.append(cur[2])
+            inner = cur[1]
+            try:
+                x, tn = self.eval(inner, env)
+            except Unsupported:
+                x, tn = None, None
+            if x is not None and is_term(x) and tn and self.ty.kind(tn) == 'pointer' and self.ty.kind(self.ty.elem(tn)) == 'struct':
+                return x, self.ty.elem(tn), tuple(reversed(path))
+            cur = inner
+        raise Unsupported('modifies: no pointer at the root of the field path')
 
     def map_arrays(self, tn):
         """[(heap array name, inner sort)] of a map type"""
@@ -684,6 +703,7 @@ class CallMixin:
         self.ifacespecs = {}
         self.chanspecs = {}
         self.closespecs = {}
+        self.recvspecs = {}
         self.lemmas_used = set()
         self.go_sites = []
         self.spawned = False
@@ -789,7 +809,7 @@ class CallMixin:
                     self.clause_hits[id(c)] = 1
                 except Unsupported as e:
                     self.elab_fail('using %r: %s' % (c.text, e), c)
-            for table, store_ in ((spec.sends, self.chanspecs), (spec.closes, self.closespecs)):
+            for table, store_ in ((spec.sends, self.chanspecs), (spec.closes, self.closespecs), (spec.recvs, self.recvspecs)):
                 for path, ps in table.items():
                     try:
                         v, tn = self.eval(parse_expr(path), env)
@@ -903,11 +923,10 @@ class CallMixin:
                         cells_ok.add(env0.cellnames[ast[1]][0])
                     continue
                 if ast[0] == 'sel':
-                    x, tn = self.eval(ast[1], env0)
-                    stn = self.ty.elem(tn) if self.ty.kind(tn) == 'pointer' else tn
-                    ft = dict(self.ty.struct_fields(stn))[ast[2]]
+                    x, stn, path = self.field_path(ast, env0)
+                    ft = self.type_at(stn, path)
                     for p, srt, lt in self.ty.leaves(ft):
-                        allowed.setdefault(self.leaf_name('F|%s|%s' % (stn, ast[2]), p), []).append(x)
+                        allowed.setdefault(self.leaf_name('F|%s|%s' % (stn, '.'.join(path)), p), []).append(x)
                     continue
                 if ast[0] == 'call' and ast[1] in self.specs_ghostfields():
                     x = self.eval_int(ast[2][0], env0)
